@@ -210,6 +210,7 @@ class Models:
             conds = []
             for cl in classes:
                 if cl is str: conds.append(v.kind == 2)
+                elif cl is bytes: conds.append(v.kind == 4)
                 elif cl in (int, bool): conds.append(v.kind == 1)
                 elif cl is type(None): conds.append(v.kind == 0)
                 else: raise OutOfSubset('isinstance of a dynamic value against %s' % cl.__name__)
@@ -457,6 +458,10 @@ class Models:
 
     def m_hexlify(self, I, a, k):
         b = a[0]
+        if isinstance(b, VDyn):                 # dynamically typed: bytes (kind 4) or TypeError
+            if not I.ctx.branch(b.kind == 4):
+                I.raise_py(TypeError)
+            b = VBytes(b.s)
         if not isinstance(b, VBytes):
             I.raise_py(TypeError)
         f = ufun('hexlify', StringSort, StringSort)
